@@ -1302,7 +1302,7 @@ func crossValidate(data []byte, lay *layout) string {
 
 func isStructural(k string) bool {
 	switch k {
-	case "size", "ofs", "ref", "swap", "count", "dupent", "dsrc", "dtgt", "doob", "retype":
+	case "size", "ofs", "ref", "swap", "count", "dupent", "dsrc", "dtgt", "doob", "dtrunc", "dins", "dtrail", "retype":
 		return true
 	}
 	return false
@@ -1484,7 +1484,7 @@ func corrupt(p *Plan, bp *basePack) *corrupted {
 				k := mod(e.E, n)
 				ents = append(ents, ents[k])
 				count++
-			case "dsrc", "dtgt", "doob":
+			case "dsrc", "dtgt", "doob", "dtrunc", "dins", "dtrail":
 				k := pickEntry(n, e.E, func(i int) bool { return i < len(lay.ents) && ents[i].typ >= tOfs && len(lay.ents[i].raw) > 2 && bytes.Equal(ents[i].z, data[lay.ents[i].refEnd:lay.ents[i].end]) })
 				if k < 0 {
 					class = e.K + ":none"
@@ -1511,10 +1511,39 @@ func corrupt(p *Plan, bp *basePack) *corrupted {
 						tgt -= d
 						class = "delta-target-size-"
 					}
+				case "dtrunc":
+					// the instruction stream ends early (inside an insert's literal bytes or a copy's argument
+					// bytes, or simply one instruction short) while the declared sizes stay: the zlib stream
+					// and the entry header are consistent, only the delta's own content is not
+					cut := 1 + mod(e.N, 6)
+					if cut >= len(ops) {
+						cut = len(ops) - 1
+					}
+					if cut < 1 {
+						class = "dtrunc:none"
+						break
+					}
+					ops = append([]byte(nil), ops[:len(ops)-cut]...)
+					class = "delta-ops-truncated"
+				case "dins":
+					// a final insert instruction that claims more literal bytes than follow it
+					claim := 2 + mod(e.N, 120)
+					have := mod(e.V, claim)
+					lit := bytes.Repeat([]byte{'x'}, have)
+					ops = append(append(append([]byte(nil), ops...), byte(claim)), lit...)
+					tgt += uint64(claim)
+					class = "delta-insert-past-end"
+				case "dtrail":
+					// instructions after the declared target size has been produced
+					ops = append(append([]byte(nil), ops...), 1, 'z')
+					class = "delta-trailing-instruction"
 				default:
 					ops = append(append([]byte(nil), ops...), copyOp(uint32(src)-uint32(min(src, 2)), uint32(4+mod(e.N, 100)))...)
 					tgt += uint64(4 + mod(e.N, 100))
 					class = "delta-copy-out-of-bounds"
+				}
+				if strings.HasSuffix(class, ":none") {
+					break
 				}
 				nd := append(append(encLEB(src), encLEB(tgt)...), ops...)
 				ents[k].z = deflate(nd)
@@ -2773,12 +2802,18 @@ func genStructEdit(r *core.Rand) Edit {
 		e.K = "count"
 	case x < 78:
 		e.K = "dupent"
-	case x < 83:
+	case x < 81:
 		e.K = "dsrc"
-	case x < 90:
+	case x < 85:
 		e.K = "dtgt"
-	case x < 95:
+	case x < 88:
 		e.K = "doob"
+	case x < 91:
+		e.K = "dtrunc"
+	case x < 94:
+		e.K = "dins"
+	case x < 96:
+		e.K = "dtrail"
 	default:
 		e.K = "retype"
 	}
